@@ -302,7 +302,10 @@ class RunEngineSimulator:
         self.add_handler(
             "wait",
             handler,
-            lambda msg: (group == RunEngineSimulator.GROUP_ANY or msg.kwargs["group"] == group),
+            lambda msg: (
+                group == RunEngineSimulator.GROUP_ANY
+                or (msg.args[0] if msg.args else msg.kwargs.get("group")) == group
+            ),
         )
 
     def add_callback_handler_for(
